@@ -3,6 +3,7 @@
 -/
 import PjVerif.Lemmas.GraphTasks
 import PjVerif.Lemmas.TaskSrcD
+import PjVerif.Lemmas.WbsSrcC
 namespace Pj
 
 theorem C11_step (s : G) (op : Op) (hi : Inv s) (hl : op.legal s) : OwnerOK (step s op).1 :=
@@ -69,5 +70,21 @@ theorem C11_source_detach (f : Nat) (s : G) (st : PyLite.PState) (hh : st.heap =
     (h : descF s.children f t = some r) (F : Nat) (hF : f ≤ F) :
     (TaskSrc.Hd F).fnV Extracted.fn_Task_detach [.atom (.ref t)] st = .ok (.atom .none, TaskSrc.withG st (setOwners s (t :: r) none)) :=
   TaskSrc.detach_spec f s st hh t r h F hF
+
+/-! ### the tie of `WBS` (wbs.py) to the current source, by translation (tools/extract_wbs.py → Extracted/WbsSrc.lean, Lemmas/WbsSrc*.lean);
+    the program of wbs.py is layered over the program of task.py: a call into task.py runs the translated setters of Lemmas/TaskSrc*.lean -/
+
+/-- the translated `WBS.tasks` returns the model's member list (`wbsTasks`: the depth-first enumeration below the hidden root) -/
+theorem C11_source_tasks (s : G) (st : PyLite.PState) (hh : st.heap = TaskSrc.encHeap s) (w : Uid) (r : List Uid)
+    (h : wbsTasks s w = some r) (F : Nat) (hF : s.n + 3 ≤ F) :
+    WbsSrc.interpTasks F w st = .ok (TaskSrc.refs r, st) :=
+  WbsSrc.interpTasks_eq s st hh w r h F hF
+
+/-- the translated `WBS.remove` (with its recursive `__remove` and `_ChildrenList.remove`) is the model's `wbsRemove`, for every state;
+    `wbsRemoveResult_state`: state and error are those of `wbsRemove`, the returned flag is the one of `removeRec` -/
+theorem C11_source_remove (s : G) (st : PyLite.PState) (hh : st.heap = TaskSrc.encHeap s) (w t : Uid) (F : Nat)
+    (hF : 2 * s.n + 12 ≤ F) (hrec : (wbsRemove s w t).2 ≠ some (.crash .recursion)) :
+    WbsSrc.interpRemove F w (.atom (.ref t)) st = WbsSrc.wbsRemoveResult st s w t :=
+  WbsSrc.interpRemove_eq s st hh w t F hF hrec
 
 end Pj
